@@ -98,6 +98,17 @@ def check_so(run, rid):
         okr = bool(ret) and isinstance(ret[-1].value, ast.Name)
         run.ob(rid, wf, wf.node, 'when_fired returns the Deferred', okr, slot='when-return',
                message='SingleObserver.when_fired does not return the Deferred')
+    # ---- re-entrancy: an observer's callback may itself call when_fired(); that request must not be lost.
+    # If when_fired decides by the stored value, fire stores it before the loop (checked above).  If it decides by
+    # the latched slot (None only after the loop), the request is appended to the list while the loop runs, so the
+    # loop must walk that live list, not a copy.
+    by_slot = bool(slot_tests(g, 'self._observers')) and not fired_tests(g)
+    if by_slot:
+        for lp in [n for n in walk_unit(fire) if isinstance(n, ast.For)]:
+            live = dotted(lp.iter) == 'self._observers'
+            run.ob(rid, fire, lp, 'a when_fired() made from inside an observer callback is still notified', live, slot='reentrant-request',
+                   message='when_fired() decides by "self._observers is None" (true only after fire\'s loop) while fire iterates %s: a request '
+                           'made from inside an observer callback is appended to a list nobody walks and then discarded' % src(lp.iter))
     # ---- already_fired
     g = cfg_of(af)
     tests = fired_tests(g) + slot_tests(g, 'self._observers')
